@@ -204,6 +204,7 @@ func TestC14(t *testing.T) {
 	os.MkdirAll(scratch, 0o755)
 	if run.Shard == 0 {
 		existingDatabase(run, scratch)
+		existingDatabaseSideBySide(run, scratch)
 	}
 	nAck := run.Scale(12, 200)
 	only := -1
